@@ -6,7 +6,8 @@ CXX_SOURCES = ['libs/acn/CID.cpp', 'libs/acn/CIDImpl.cpp']
 # Coq models of libc / libuuid (Libc.v) against the platform's functions: a mismatch there means
 # the libc model is wrong, not that OLA violates the property.
 SPEC_KEYS = ['ok', 'v', 'pok', 'pv', 't', 'p', 's', 'rt', 'd', 'back', 'a', 'eq', 'nil', 'wrap', 'n',
-             'pure', 'mis', 'cnt', 'exc', 'ep', 'od']
+             'pure', 'mis', 'cnt', 'exc', 'ep', 'od', 'sib'] + ['d%d' % i for i in range(1, 12)]
+# keep (out-parameter untouched by a rejected text) is what the code does but is not documented: internal
 INTERNAL_KEYS = []
 
 RULE = ('every value -> text -> value for ALL 8-bit and ALL 16-bit values (both tiers) of every '
@@ -18,6 +19,12 @@ RULE = ('every value -> text -> value for ALL 8-bit and ALL 16-bit values (both 
         'IPv6: all groups >= 0x1000 (39 characters), all-ones, a single zero group / every zero run at every position, '
         'competing runs, ::, ::1, v4-mapped/-compatible forms and neighbours, random, through ToString -> FromString '
         'and operator<<, plus malformed IPv6 texts; every case runs under an exception guard (exc=1 = a conversion threw); '
+        'DIRTY TARGETS every parse entry point that writes into an out-parameter or into the object itself '
+        '(StringToInt/HexStringToInt/PrefixedHex x8, StringToBool(Tolerant), MAC/IPv4/IPv6/socket address FromString(.., T*), '
+        'UID/CID assigned onto an existing object, DmxBuffer::SetFromString) is also run on a long-lived target holding an '
+        'earlier non-default value (DMX: filled by SetFromString/Set/SetRangeToValue/SetChannel or copy-on-write shared with a '
+        'live sibling; op dirty, 1/6 of all parse cases) and DMX texts with empty fields are applied in sequences to ONE '
+        'buffer (op dmxseq): the result must be a function of the text only; '
         'CONTRACT printers are pure functions of the value: (1) operator<< of every value type (UID, IPv4, IPv6, '
         'socket address, MAC, CID, DmxBuffer) on a caller stream that already carries state (left/right/internal, '
         'hex, fill, pending setw) must insert exactly the ToString() text as one string field and leave the '
@@ -382,8 +389,38 @@ def sweep_values(bits, signed):
     return range(0, 1 << bits)
 
 
+PARSE_OPS = ('su', 'ss', 'hu', 'hs', 'phu', 'phs', 'bool', 'boolt', 'uid', 'mac', 'dmx', 'dmxv', 'ip4', 'ip6', 'sa', 'cid')
+
+
 def gen_cases(rng, tier):
+    """every parse case is additionally run, with probability 1/6, on dirty targets (op dirty)"""
+    for c in gen_cases0(rng, tier):
+        yield c
+        if c.split(' ', 1)[0] in PARSE_OPS and rng.random() < 0.17:
+            yield 'dirty %d %s' % (rng.randrange(1, 1000), c)
+
+
+DMX_FIELD_TEXTS = ['1,,3', ',2,', '255,,,', ',', ',,', ',,,5', '7', '', '9,9,9', '1,2,3,4,5,6,7,8', ' ,x,', '0,0,0', '10,,30',
+                   '5,', ',5', '1,,,,,,,,,,,,,,,,,,,,,,2', 'a,b', '300,,-1', '1, ,2', ',' * 511, ',' * 512, ',' * 600]
+
+
+def gen_cases0(rng, tier):
     quick = tier == 'quick'
+    # ---- several texts into ONE long-lived DmxBuffer, frame compared after every call -------------------
+    for i in range(300 if quick else 3000):
+        steps = []
+        for _ in range(rng.choice([2, 2, 3, 4, 6])):
+            r = rng.random()
+            if r < 0.12:
+                steps.append(rng.choice(['R', 'S']))
+            elif r < 0.6:
+                steps.append(hx(rng.choice(DMX_FIELD_TEXTS)))
+            else:
+                steps.append(hx(dmx_text(rng)))
+        yield 'dmxseq ' + ' '.join(steps)
+    for t in DMX_FIELD_TEXTS:
+        for k in range(5):
+            yield 'dirty %d dmx %s' % (k + 5 * rng.randrange(1, 100), hx(t))
     # ---- printers from several threads at once (first, so that they land in different shards) ------
     for i in range(4 if quick else 8):
         yield 'thr %d %d %d' % ((2, 4)[i % 2], 20000 if quick else 50000, rng.randrange(1 << 32))
@@ -565,6 +602,10 @@ def nontrivial(payload, md):
     if md.get('ok') == '1' or md.get('pok') == '1' or md.get('rt') == '1' or md.get('eq') == '1' or 'pure' in md or 'mis' in md:
         return True
     op = payload.split(' ', 1)[0]
+    if op == 'dirty':
+        op = payload.split(' ')[2]
+    if op == 'dmxseq':
+        return any(k.startswith('d') and v != '-' for k, v in md.items())
     if op in ('dmx', 'dmxv'):
         return md.get('d', md.get('back', '-')) != '-'
     if op in ('strtoull', 'strtoul', 'strtoll', 'strtol'):
